@@ -47,3 +47,7 @@ chk("C18", "E2", "exploration",
     "deterministic simulation: concurrent get/lookup threads on the three AddrMaps under the cooperative scheduler, host-bit entropy shrunk so the uniqueness loop iterates, bijection oracle over the recorded history",
     "Seeded exploration of 2..4 threads x <=4 ops with collisions forced by a 2..3 bit host space; oracle over the invoke/return history: each key's address never changes, no address is shared, reverse lookup returns the owning key and never misses an address handed out before it began, every address classifies as its own kind.",
     "No full linearizability search: get/lookup each hold the lock for their whole body, so the history invariants above are the linearizability conditions for this API.")
+chk("C03", "E1", "exploration",
+    "deterministic simulation: real relay handshake server (and honest client) over an in-memory duplex pipe with scriptable TLS exporter; grammar-driven adversarial client with captured transcripts; stream-cut faults",
+    "Seeded exploration of handshake sessions: honest clients (real clientside) under every exporter agreement/disagreement and allow/deny policy must always authenticate with the right mechanism and see denials; adversarial clients (8 header x 11 reply shapes incl. replayed victim transcripts and wrong-key signatures) must never be authenticated as the victim; stream cuts at every frame boundary must not hang or admit.",
+    "TLS exporter modelled as a per-session keyed PRF; Ed25519 trusted; the adversary only replays or signs with its own keys.")
